@@ -298,10 +298,16 @@ type simWriter struct {
 	calls  int
 	transientCall int // this call (1-based) fails once, accepting a prefix; later calls succeed (0: never)
 	failed bool
+	refuseNext bool // the next call accepts nothing and fails (a write deadline that expired, EAGAIN); later calls succeed
 }
 
 func (w *simWriter) Write(b []byte) (int, error) {
 	w.calls++
+	if w.refuseNext {
+		w.refuseNext = false
+		w.failed = true
+		return 0, errStream
+	}
 	if w.transientCall > 0 && w.calls == w.transientCall {
 		w.failed = true
 		n := len(b) / 2
@@ -557,6 +563,37 @@ func (r *c38run) RunSeq(sched *simrt.Source, keepLog bool) *simrt.Result {
 			if w.failed && werr == nil {
 				r.note("failing stream call not reported by Write")
 			}
+		}
+		// The stream refuses the first call of one message's Write without accepting
+		// a byte (an expired write deadline), then works again. Whatever the framer
+		// does with that message — report the failure (the unchanged code), or even
+		// swallow it — the stream must read back as exactly the messages whose Write
+		// reported success, in order: a message reported as failed must not surface
+		// later, and its failure must not damage the frames around it.
+		for rep := 0; rep < 3 && r.failure == nil; rep++ {
+			w := &simWriter{failAt: -1}
+			fw := jsonrpc2.HeaderFramer().Writer(w)
+			k := sched.Draw(len(r.msgs))
+			retry := sched.Draw(2) == 1
+			var okMsgs []mdesc
+			for i := 0; i < len(r.msgs); i++ {
+				msg, _ := r.msgs[i].build()
+				if i == k {
+					w.refuseNext = true
+					res.Faults["write-refused-at-frame-start"]++
+				}
+				_, err := fw.Write(context.Background(), msg)
+				w.refuseNext = false
+				if err == nil {
+					okMsgs = append(okMsgs, r.msgs[i])
+				} else if i == k && retry {
+					if _, err := fw.Write(context.Background(), msg); err == nil {
+						okMsgs = append(okMsgs, r.msgs[i])
+					}
+				}
+			}
+			out := readBack(&simReader{data: w.buf.Bytes(), endErr: io.EOF, chunk: seeded()}, len(r.msgs)+2)
+			r.expectPrefix(fmt.Sprintf("stream whose first call of message %d's Write was refused with 0 bytes accepted (retried: %v)", k, retry), out, okMsgs, len(okMsgs), true)
 		}
 		// a message that cannot be encoded is refused without writing anything,
 		// so the frames around it still read back exactly
